@@ -595,7 +595,8 @@ class SymBytes:
 
     def __buffer__(self, flags):
         if not self.ov:
-            return memoryview(bytes(self.base))
+            # a live view for the mutable flavour (aliasing through memoryview must behave as with a real bytearray)
+            return memoryview(self.base) if self.mutable else memoryview(bytes(self.base))
         return memoryview(self._degrade())
 
 
